@@ -495,3 +495,13 @@ V("C14", "twin: union of the variable sets in a fresh set", "silent",
   (SYM, "        for wyckoff_letter in wyckoff_letters:\n            variables = wyckoff_info[wyckoff_letter][\"variables\"]\n            if len(variables) != 0:\n                return True\n        return False\n",
         "        variables = set().union(*[wyckoff_info[x][\"variables\"] for x in wyckoff_letters])\n        return len(variables) != 0\n"))
 V("C01", "falsy seed replaced by OS entropy", "R01.2", (SBC, "np.random.default_rng(seed)", "np.random.default_rng(seed or None)"))
+
+# ------------------------------------------------------------------------------------------ round 8, C02 seeds
+_DOT_OLD = "                    a_correction = np.dot(\n                        (-np.array(node_factor) + np.array(i_factor)), orig_cell\n                    )\n                    displacement = positions[a_final_neighbour] - positions[node_index]\n                    a = displacement + a_correction\n"
+for _pid, _rid in (("C02", "R02.3"), ("C04", "R04.3"), ("C03", "R03.9"), ("C18", "R18.9")):
+    V(_pid, "image factors multiplied with the cell on the left (3D builder)", _rid, (PFD, _DOT_OLD, _DOT_OLD.replace("(-np.array(node_factor) + np.array(i_factor)), orig_cell", "orig_cell, (-np.array(node_factor) + np.array(i_factor))")))
+    V(_pid, "twin: transposed cell on the left", "silent", (PFD, _DOT_OLD, _DOT_OLD.replace("(-np.array(node_factor) + np.array(i_factor)), orig_cell", "orig_cell.T, (-np.array(node_factor) + np.array(i_factor))")))
+    V(_pid, "backward edge of the periodicity graph dropped", _rid, (PFD, "                        i_adj_list[sub_key].append(sub_tuple)\n", ""))
+for _pid, _rid in (("C02", "R02.4"), ("C03", "R03.10"), ("C04", "R04.9")):
+    V(_pid, "cell enlarged by Cartesian column instead of lattice vector", _rid, (SBC, "new_cell[i, :] *= (max_pos - min_pos) + 1", "new_cell[:, i] *= (max_pos - min_pos) + 1"))
+    V(_pid, "twin: lattice vector selected without the slice", "silent", (SBC, "new_cell[i, :] *= (max_pos - min_pos) + 1", "new_cell[i] *= (max_pos - min_pos) + 1"))
